@@ -278,15 +278,24 @@ func c12ScenarioTable() []c12Scenario {
 }
 
 func c12Scenarios(c *Ctx) {
+	c.R.Rule("R12g", "message-level validators give the documented verdict on concrete rule instances (interpreted, not executed)", 30)
+	c12ScenariosRule(c, "R12g", nil)
+}
+
+// c12ScenariosRule runs the scenario table (or the part selected by only) under the given rule id.
+func c12ScenariosRule(c *Ctx, rid string, only func(fn, rule string) bool) {
 	r := c.R
-	r.Rule("R12g", "message-level validators give the documented verdict on concrete rule instances (interpreted, not executed)", 30)
+	prevConcrete := c.W.Concrete
 	c.W.Concrete = true
-	defer func() { c.W.Concrete = false }()
+	defer func() { c.W.Concrete = prevConcrete }()
 	for _, sc := range c12ScenarioTable() {
+		if only != nil && !only(sc.Fn, sc.Rule) {
+			continue
+		}
 		fn := c.P.Func(sc.Pkg, sc.Fn)
 		key := fmt.Sprintf("%s: %s → %s", sc.Fn, sc.Rule, map[bool]string{true: "refused", false: "accepted"}[sc.Reject])
 		if fn == nil {
-			r.Unres("R12g", key, "", sc.Pkg+"."+sc.Fn+" not found")
+			r.Unres(rid, key, "", sc.Pkg+"."+sc.Fn+" not found")
 			continue
 		}
 		pos := c.P.Pos(c.P.Decls[fn].Pos())
@@ -300,7 +309,7 @@ func c12Scenarios(c *Ctx) {
 			for _, u := range run.Used {
 				free = append(free, u.Key)
 			}
-			r.Undec("R12g", key, pos, fmt.Sprintf("the validator's evaluation on the concrete scenario left decisions open %v (problems %v): the scenario model does not cover a construct the validator now uses", free, run.Problems))
+			r.Undec(rid, key, pos, fmt.Sprintf("the validator's evaluation on the concrete scenario left decisions open %v (problems %v): the scenario model does not cover a construct the validator now uses", free, run.Problems))
 			continue
 		}
 		verdict := "?"
@@ -322,7 +331,7 @@ func c12Scenarios(c *Ctx) {
 			}
 		}
 		if verdict == "?" {
-			r.Undec("R12g", key, pos, fmt.Sprintf("the validator's result on the concrete scenario is not a concrete value (%T %s)", res, res.key()))
+			r.Undec(rid, key, pos, fmt.Sprintf("the validator's result on the concrete scenario is not a concrete value (%T %s)", res, res.key()))
 			continue
 		}
 		want := map[bool]string{true: "refused", false: "accepted"}[sc.Reject]
@@ -332,11 +341,13 @@ func c12Scenarios(c *Ctx) {
 		} else {
 			msg += " (the offending definition passes generation and produces broken or misleading output)"
 		}
-		r.Check(verdict == want, "R12g", key, pos, msg)
+		r.Check(verdict == want, rid, key, pos, msg)
 	}
 	_ = strings.Join
-	c.W.Concrete = false
-	c12MethodConfigGrid(c)
+	if only == nil {
+		c.W.Concrete = false
+		c12MethodConfigGrid(c)
+	}
 }
 
 // c12MethodConfigGrid: ValidateMethodConfig against the documented rules over a small
